@@ -12,7 +12,8 @@ sys.path.insert(0, os.path.join(HERE, "lib"))
 sys.path.insert(0, os.path.join(HERE, "checks"))
 import registry  # noqa: E402
 
-CLAIMED = registry.MANIFEST
+ENABLED = set(open(os.path.join(HERE, "checks", "enabled.txt")).read().split())
+CLAIMED = {k: v for k, v in registry.MANIFEST.items() if k in ENABLED}  # checks the lead has reviewed and released
 
 NA_REASON = "check not built yet (work in progress; see DESIGN.md section 5 for the planned specification and binding)"
 
